@@ -197,6 +197,9 @@ def probes():
         # C01: a 2.0 bundle member that parses to an object carrying spec_version
         "bundle20_member_21_sco": acc(lambda: stix2.v20.Bundle(objects=[
             {"type": "ipv4-addr", "id": "ipv4-addr--ff26c055-6336-5bc5-b98d-13d6226742dd", "value": "1.2.3.4"}])),
+        # v20 MarkingDefinition without `created`: is the clock value written with exactly three fraction digits
+        "md20_default_ms": bool(re.search(r'"created": "[^"]*\.\d{3}Z"', stix2.v20.MarkingDefinition(
+            definition_type="statement", definition={"statement": "s"}).serialize())),
         "d2s_ext_nondict": exc_of(lambda: stix2.parse({"type": "x-unknown-type", "id": "x-unknown-type--" + u, "extensions": "abc"})),
     }
 
